@@ -49,6 +49,7 @@ type c03Job struct {
 	Sec  *c03Second `json:"sec,omitempty"`
 	Deep bool       `json:"deep,omitempty"` // explore with two deviations (thorough tier, selected jobs)
 	Flat bool       `json:"flat,omitempty"` // free switches only, no deviation: jobs about the DEPTH of a reorg, not about interleavings
+	Poll int        `json:"poll,omitempty"` // k > 0: the client's background head poller answers once before every k-th step of a task (0: it never answers)
 }
 
 type c03Case struct {
@@ -63,14 +64,15 @@ func init() {
 	checks.Register(&checks.Check{
 		ID:        "C03",
 		Level:     "model_checking",
-		Technique: "stateless model checking of the real pipeline (controlled scheduler over instrumented code, fake Postgres, simulated node): a chain indexed with batch b0, restart with batch b1/conc, then every interleaving (preemption-bounded, reorg landing at every RPC point) of the task thread(s) with an environment thread applying growth and one or two reorgs; oracle = independent projection of the final canonical chain + frame condition on every commit diff",
-		Rule: "jobs = integration sets {L1 (headers+logs), T1 (blocks), R1 (blocks+receipts), TR1 (blocks+traces), and L1+T1, T1+R1, T1+TR1 sharing one source client} x n in {4,5} (thorough 6) x index batch b0 in 1..3 x batch b1 in 1..3 x conc in {1,2} x pre-growth {0,1} x fork depth d in 1..3 x replacement length r in {d-1,d,d+1,d+2} x content {same, log removed, added, moved} x post-growth {0,1} x optional second reorg at fork-1/fork/fork+1 (equal or longer), plus deep reorgs orphaning 12-15 recorded positions (n=14..26, explored with free switches only); thorough = the product with content/growth flags rotating over it, quick = a hand-picked covering subset (see c03Jobs); " +
+		Technique: "stateless model checking of the real pipeline (controlled scheduler over instrumented code, fake Postgres, simulated node): a chain indexed with batch b0, restart with batch b1/conc, then every interleaving (preemption-bounded, reorg landing at every RPC point) of the task thread(s) with an environment thread applying growth and one or two reorgs, without and with a live background head poller answering between the steps; oracle = independent projection of the final canonical chain + frame condition on every commit diff",
+		Rule: "jobs = integration sets {L1 (headers+logs), T1 (blocks), R1 (blocks+receipts), TR1 (blocks+traces), and L1+T1, T1+R1, T1+TR1 sharing one source client} x n in {4,5} (thorough 6) x index batch b0 in 1..3 x batch b1 in 1..3 x conc in {1,2} x pre-growth {0,1} x fork depth d in 1..3 x replacement length r in {d-1,d,d+1,d+2} x content {same, log removed, added, moved} x post-growth {0,1} x optional second reorg at fork-1/fork/fork+1 (equal or longer), plus deep reorgs orphaning 12-15 recorded positions (n=14..26, explored with free switches only), plus the live-head-poller family: fork depth d in 1..2 (thorough 1..3) x r in {d-1,d,d+1} x growth afterwards {no,yes} x index batch 1..2 (thorough 1..3) with shape/b1/conc/pre-growth/content rotating (thorough: every shape), in which the client's background head poller answers once before EVERY step of the task (a poller answer between every two head queries of the task, while the source changes and after it has settled; also: before every second step, two head replacements in a row, two integrations on one client); thorough = the product with content/growth flags rotating over it, quick = a hand-picked covering subset (see c03Jobs); " +
 			"per job every schedule of task thread(s) and the environment thread with <= 1 deviation (thorough: 2 on the single-integration jobs with index batch 1), free switches at step boundaries and between environment operations, environment switches otherwise only at RPC points; both partition orders when conc=2 and index batch 1. An execution is non-trivial when the code under test deleted at least one row or cursor (a reorg was unwound) or the oracle rejected it; distinct = distinct (job, choice sequence).",
 		Assumptions: []string{
 			"fake Postgres (h/simpg) interprets the SQL shovel sends; simulated node (h/simeth) answers like a well-behaved geth that switches chains atomically between two requests",
 			"phase 1 (index the n-block chain to its head with batch b0, real pipeline, sequential) runs once per job in a scratch world; its database is the start state of every execution, which begins with a process restart: fresh tasks and source client from the second config (batch b1 / conc), then one idle poll per task (nothing new yet) — if the real pipeline fails phase 1 (plain indexing, C01/C04 territory) the job is reported as violation class 'setup' (key index-phase-failed:<set>), not explored",
 			"'the source settles' = the environment thread has applied its last chain change; afterwards each task is stepped until it reports 'no new blocks' (number of integrations + 1) times in a row (the head cache may serve that many stale answers), horizon 4n+8 steps",
 			"while the source has not changed since its last poll a task does not poll again (it would repeat the same step)",
+			"head poller: in the jobs without 'poll' the client's background head poller never answers (its ticker never fires); in the jobs with poll=k its ticker fires once before every k-th step of a task and the step begins when the poller has fed the node's answer to the head cache and parked again — a poller answer never lands INSIDE a step, and the environment thread is held while a poller answer is in progress (a chain change commutes with everything the poller does but its one RPC exchange: 'during the poll' equals 'at the step boundary in front of it' or 'at the next RPC point after it', which are both enumerated); with several task threads the poller answers only while the tasks are drained after the source settled",
 			"reductions with several tasks on one client: the schedule space is explored while the source changes (afterwards the tasks are drained one after the other); only the first task's step boundaries are free switch points; preemptive switches to a task happen at RPC exchanges / step boundaries only; at most two environment operations",
 		},
 		Budget:        map[string]time.Duration{"quick": 140 * time.Second, "thorough": 850 * time.Second},
@@ -197,6 +199,10 @@ func c03Jobs(thorough bool) []c03Job {
 				}
 			}
 		}
+		// live head poller (explored with one deviation)
+		for _, j := range c03PollJobs(true) {
+			add(j)
+		}
 		return jobs
 	}
 	// quick: a covering subset.
@@ -252,6 +258,58 @@ func c03Jobs(thorough bool) []c03Job {
 	}
 	add(c03Job{Igs: "L1+T1", N: 4, B0: 1, B1: 1, Conc: 1, Pre: 0, D: 1, R: 2, Var: "same", Post: 0, Sec: &c03Second{Off: 0, Extra: 1}})
 	add(c03Job{Igs: "TR1", N: 4, B0: 1, B1: 1, Conc: 1, Pre: 1, D: 2, R: 3, Var: "same", Post: 1, Sec: &c03Second{Off: -1, Extra: 1}})
+	for _, j := range c03PollJobs(false) {
+		add(j)
+	}
+	return jobs
+}
+
+// c03PollJobs: the client's background head poller is alive: it answers once before every step (Poll=1) or every
+// second step (Poll=2) of a task, while the source changes and after it has settled. The head cache is then fed
+// from two sides (the poller and the task's own head queries).
+func c03PollJobs(thorough bool) []c03Job {
+	vars := []string{"same", "removed", "added", "moved"}
+	var jobs []c03Job
+	// every (d, r) with r in d-1..d+1 x growth afterwards {no, yes} x index batch; the integration shape, the batch after
+	// the restart, growth before the reorg and the content variant rotate (thorough: every shape, d and index batch up to 3)
+	igs, dmax, b0max, n := []string{"L1", "T1", "R1", "TR1"}, 2, 2, 4
+	reps := 1
+	if thorough {
+		dmax, b0max, n, reps = 3, 3, 5, 4
+	}
+	k := 0
+	for rep := 0; rep < reps; rep++ {
+		for d := 1; d <= dmax; d++ {
+			for r := d - 1; r <= d+1; r++ {
+				for post := 0; post <= 1; post++ {
+					for b0 := 1; b0 <= b0max; b0++ {
+						jobs = append(jobs, c03Job{Igs: igs[(k+k/4+rep)%4], N: n, B0: b0, B1: 1 + (k/2)%3, Conc: 1 + (k/3)%2, Pre: (k / 4) % 2, D: d, R: r, Var: vars[(k/5)%4], Post: post, Poll: 1})
+						k++
+					}
+				}
+			}
+		}
+	}
+	// the poller answers before every second step only
+	jobs = append(jobs,
+		c03Job{Igs: "L1", N: 4, B0: 1, B1: 1, Conc: 1, D: 1, R: 1, Var: "same", Post: 0, Poll: 2},
+		c03Job{Igs: "T1", N: 4, B0: 1, B1: 2, Conc: 1, Pre: 1, D: 2, R: 2, Var: "removed", Post: 0, Poll: 2},
+	)
+	// two replacements of the head in a row, the second of equal height, then quiet
+	jobs = append(jobs, c03Job{Igs: "L1", N: 4, B0: 1, B1: 1, Conc: 1, D: 1, R: 2, Var: "same", Post: 0, Sec: &c03Second{Off: 0, Extra: 0}, Poll: 1})
+	// two integrations on one client (head cache budget 2): the poller answers while the tasks are drained
+	jobs = append(jobs,
+		c03Job{Igs: "L1+T1", N: 4, B0: 1, B1: 1, Conc: 1, D: 1, R: 1, Var: "same", Post: 0, Poll: 1},
+		c03Job{Igs: "T1+R1", N: 4, B0: 2, B1: 1, Conc: 1, D: 2, R: 2, Var: "added", Post: 0, Poll: 1},
+	)
+	if thorough {
+		jobs = append(jobs,
+			c03Job{Igs: "L1+T1", N: 4, B0: 1, B1: 2, Conc: 1, Pre: 1, D: 1, R: 2, Var: "removed", Post: 0, Poll: 1},
+			c03Job{Igs: "T1+TR1", N: 4, B0: 1, B1: 1, Conc: 1, D: 2, R: 2, Var: "same", Post: 0, Poll: 2},
+			c03Job{Igs: "L1", N: 5, B0: 3, B1: 2, Conc: 2, D: 3, R: 3, Var: "moved", Post: 0, Poll: 1},
+			c03Job{Igs: "R1", N: 5, B0: 1, B1: 3, Conc: 2, Pre: 1, D: 3, R: 3, Var: "same", Post: 0, Poll: 1},
+		)
+	}
 	return jobs
 }
 
@@ -423,6 +481,7 @@ type c03Result struct {
 	versions map[int]int // chain version -> requests served
 	steps    []string    // step log (trace mode)
 	lagged   int         // node-lag answers injected
+	polls    int         // answers of the background head poller (ticks delivered and served)
 }
 
 func c03Exec(j c03Job, p *c03Prep, ch vrt.Chooser, states *vrt.StateSet, trace bool) (res c03Result) {
@@ -477,9 +536,47 @@ func c03Exec(j c03Job, p *c03Prep, ch vrt.Chooser, states *vrt.StateSet, trace b
 				return
 			}
 		}
+		// jobs with a live head poller: the environment thread exists before the explored phase begins and is held at
+		// a gate (a) until the task threads exist and (b) while a poller answer is in progress — a chain change commutes
+		// with everything the poller does except its one RPC exchange, so "during the poll" is equivalent to "right
+		// before it" (the step boundary in front of it) or "right after it" (the next RPC point / step boundary)
+		polling, envGo := false, false
+		var envBody func()
+		var env *vrt.Thread
+		envFree := func() bool { return envGo && !polling }
+		if j.Poll > 0 {
+			env = w.V.GoNamed("env", func() {
+				w.V.Point("env-start", false, envFree)
+				if w.V.Closing() {
+					return
+				}
+				envBody()
+			})
+		}
 		w.V.WaitIdle()
 		g.open = true
 		phase2Seq = len(w.Net.Exchanges())
+		// pollOnce: the ticker of the client's background head poller fires once; the calling (task or main) thread
+		// waits until the poller has asked the node for its head, fed the answer to the client's head cache and parked
+		// on its ticker again (or ended: a poller that saw an error stops its ticker)
+		pollOnce := func() {
+			tks := w.V.Tickers()
+			if len(tks) == 0 || w.V.Closing() {
+				return
+			}
+			polling = true
+			n := 0
+			for _, tk := range tks {
+				if w.V.Tick(tk) {
+					n++
+				}
+			}
+			if n > 0 {
+				res.polls += n
+				w.V.Point("wait-poll", false, func() bool { return w.V.TickerWaiters() >= len(w.V.Tickers()) })
+			}
+			polling = false
+		}
 		// environment answer "node lag" (at most once per execution, an environment deviation): the node already
 		// announces its head but still answers null for that block inside a batch of block/header requests
 		lagLeft := 1
@@ -587,7 +684,7 @@ func c03Exec(j c03Job, p *c03Prep, ch vrt.Chooser, states *vrt.StateSet, trace b
 		// (explored=false) — the schedule space of several tasks is only explored while the source changes.
 		horizon := 4*j.N + 8
 		runTask := func(ti int, task *world.Task, explored bool) {
-			nothing, settled := 0, 0
+			nothing, settled, stepNo := 0, 0, 0
 			var lastOut string
 			var lastErr error
 			for settled < horizon {
@@ -606,6 +703,15 @@ func c03Exec(j c03Job, p *c03Prep, ch vrt.Chooser, states *vrt.StateSet, trace b
 				if w.V.Closing() {
 					return
 				}
+				// the head poller answers between two steps (with several task threads only once the source has settled
+				// and the tasks are drained one after the other: see Assumptions)
+				if j.Poll > 0 && stepNo%j.Poll == 0 && (nIG == 1 || !explored) {
+					pollOnce()
+					if w.V.Closing() {
+						return
+					}
+				}
+				stepNo++
 				wasDone := envDone
 				stepStart[ti] = len(w.Net.Exchanges())
 				out, err := task.Step()
@@ -664,10 +770,14 @@ func c03Exec(j c03Job, p *c03Prep, ch vrt.Chooser, states *vrt.StateSet, trace b
 			th.OnlyAt = func(l string) bool { return strings.HasPrefix(l, "rpc:") || strings.HasPrefix(l, "boundary:") || l == "step" }
 			threads = append(threads, th)
 		}
-		env := w.V.GoNamed("env", func() {
+		envBody = func() {
 			for i, op := range p.ops {
 				if i > 0 {
-					vrt.Boundary("env")
+					if j.Poll > 0 {
+						w.V.Point("boundary:env", true, envFree)
+					} else {
+						vrt.Boundary("env")
+					}
 				}
 				if w.V.Closing() {
 					return
@@ -697,7 +807,11 @@ func c03Exec(j c03Job, p *c03Prep, ch vrt.Chooser, states *vrt.StateSet, trace b
 			}
 			envDone = true
 			w.V.Bump()
-		})
+		}
+		if env == nil {
+			env = w.V.GoNamed("env", envBody)
+		}
+		envGo = true
 		env.OnlyAt = onlyAtIO
 		w.V.Join(append(threads, env)...)
 		// (the chooser stays open: while the tasks are drained only the main thread runs, the remaining choices are
@@ -808,6 +922,9 @@ func c03Info(j c03Job, hist []uint64) string {
 	info := fmt.Sprintf("positions recorded at index time %v, lowest fork point %d", hist, fork)
 	if len(hist) > 0 && fork < hist[0] {
 		info += " (below the first recorded position)"
+	}
+	if j.Poll > 0 {
+		info += fmt.Sprintf("; the background head poller answered before every step with step number divisible by %d", j.Poll)
 	}
 	return info
 }
@@ -969,6 +1086,10 @@ func c03Run(c *fw.Ctx) {
 				c.Count("reorg_landed_inside_a_step", 1)
 			}
 			c.Count("node_lag_answers", int64(res.lagged))
+			c.Count("head_poller_answers", int64(res.polls))
+			if j.Poll > 0 {
+				c.Count("executions_with_live_head_poller", 1)
+			}
 			for v, n := range res.versions {
 				c.Count(fmt.Sprintf("requests_served_by_chain_v%d", v), int64(n))
 			}
